@@ -33,6 +33,9 @@ def run_history(rec, sc, assemblage=None, fractions=None, F0=None, collect=None)
     m, params, get_L, get_x, desc = MT.build(sc, assemblage, fractions)
     n = sc["n"]
     F = np.eye(3) if F0 is None else F0.copy()
+    if sc.get("F0_layout"):      # the same starting F in another memory presentation (Fortran order, strided view, read-only)
+        Fkeep = F.copy()
+        F = MT.G.relayout(F, sc["F0_layout"])
     t = 0.0
     L0 = np.asarray(get_L(0.0, get_x(0.0)), dtype=float)
     s0 = float(np.abs(np.linalg.eigvalsh((L0 + L0.T) / 2)).max())
@@ -50,7 +53,7 @@ def run_history(rec, sc, assemblage=None, fractions=None, F0=None, collect=None)
         nbefore = len(m.orientations)
         kw = {}
         if sc.get("regime_switch"):
-            kw["get_regime"] = (lambda tt, xx, sc=sc: MT.regime_at(sc, tt))
+            kw["get_regime"] = (lambda tt, xx, sc=sc: MT.regime_given(sc, tt))
         tr, Fn = rec.update(m, params, F, get_L, (t, t + dt, get_x), **kw)
         u = dict(index=k, t0=t, t1=t + dt, trace=tr)
         out["updates"].append(u)
@@ -79,6 +82,8 @@ def run_history(rec, sc, assemblage=None, fractions=None, F0=None, collect=None)
                 out["fails"].append((k, f"orthonormality error {err:.3e} exceeds {bound:.3e}"))
             if np.linalg.det(np.asarray(O)).min() <= 0:
                 out["fails"].append((k, "left-handed orientation matrix"))
+        if k == 0 and sc.get("F0_layout") and not np.array_equal(F, Fkeep):
+            out["fails"].append((k, "the caller's starting deformation gradient was modified in place by the update"))
         if desc.get("mutated"):
             out["fails"].append((k, "the array returned by the caller's velocity-gradient callable was modified in place by the update"))
         F = Fn
@@ -172,6 +177,27 @@ def scenarios(chk, tier, regimes=(4, 4, 4, 6, 0, 7), extra_diffusion=True):
         sc["regime_switch"] = [given, given, 0.0]
         scs.append(sc)
     scs.append(MT.scenario(rng, regime=4, nupd=2, lkind="shared"))
+    # presentations of the arguments (own stream): ordinals as enum members / numpy integers (also what get_regime returns),
+    # the velocity gradient handed back as a view of a caller's table / read-only / Fortran-ordered, starting F Fortran-ordered
+    rngp = np.random.default_rng([chk.seed, 0xC01E])
+    for j, (key, val) in enumerate((("spelling", "enum"), ("spelling", "np.uint8"), ("lkind", "L_view"), ("lkind", "L_readonly"),
+                                    ("lkind", "L_fortran"), ("F0_layout", "fortran"))):
+        sc = MT.scenario(rngp, regime=int((4, 6, 4, 0, 6, 7)[j]), nupd=2)
+        sc[key] = val
+        if key == "spelling":      # a regime switch strictly inside update 0, in that spelling
+            sc["regime_switch"], sc["regime_switch_update"] = [sc["regime"], int((0, 4)[j % 2]), 0.0], float(rngp.uniform(0.3, 0.7))
+        scs.append(sc)
+    # get_regime switching between a dislocation and a viscosity-bound regime strictly INSIDE an update, textures with tiny
+    # fractions and strong mobility (LSODA's raw vector then has slightly negative fractions / entries beyond 1: what is stored must
+    # still be a valid texture)
+    for j, (r1, r2) in enumerate(((4, 0), (6, 7), (4, 7), (0, 4))):
+        sc = MT.scenario(rngp, regime=int((r1, r2, 4, 6)[j % 4]), nupd=int(1 + j % 2), tkind=("nonuniform", "random")[j % 2],
+                         lkind=("simple", "general")[j % 2], strain=float(rngp.uniform(0.8, 1.2) * (1 + j % 2)),
+                         n=int(rngp.integers(20, 41)))
+        sc["params"]["gbm_mobility"] = float((200.0, rngp.uniform(100, 200))[j % 2])
+        sc["params"]["nucleation_efficiency"] = float((0.0, rngp.uniform(0, 10))[j % 2])
+        sc["regime_switch"], sc["regime_switch_update"] = [r1, r2, 0.0], float(rngp.uniform(0.3, 0.8))
+        scs.append(sc)
     # velocity gradients that coincide exactly at the start, midpoint and end of every update and vary in between (own stream)
     scs += MT.coincident_scenarios(np.random.default_rng([chk.seed, 0xC06D]), tier, regimes=(4, 6, 4, 0, 7))
     # grain counts on block boundaries (independent stream; the scenarios above are unchanged)
@@ -268,6 +294,20 @@ def replay(d):
         print("replay file names a broken obligation; re-run the check itself")
         return 1
     sc = d["scenario"]
+    if "pair" not in sc and "seed" in sc:
+        # construction-time clause: a default-constructed mineral is valid and reproducible from its seed
+        import pydrex as px
+        fails = []
+        for seed in (int(sc["seed"]), np.int64(int(sc["seed"]))):
+            a, b = px.Mineral(n_grains=40, seed=seed), px.Mineral(n_grains=40, seed=seed)
+            if not (np.array_equal(a.orientations[0], b.orientations[0]) and np.array_equal(a.fractions[0], b.fractions[0])):
+                fails.append(f"default-constructed mineral not reproducible from its seed {seed!r}")
+            fails += ["initial snapshot: " + m for m in MT.snapshot_valid(a.orientations[0], a.fractions[0], 40)]
+            if MT.orthonormality_error(a.orientations[0]) > 1e-12:
+                fails.append("initial orientations not orthonormal")
+        for m in fails:
+            print("still fails:", m)
+        return 1 if fails else 0
     if "pair" not in sc:
         print("replay of a construction-time failure: re-run the check")
         return 1
